@@ -483,6 +483,26 @@ func judge(run *rep.Run, c hcase, r *backend.Record) {
 		if !ok {
 			run.Violation("C15/forwarding-value-dropped/"+strings.ToLower(fh)+"/"+shape, fmt.Sprintf("client %s values %q, backend received %q (existing values must be kept, Olla's own appended)", fh, sent, recv), wit)
 		}
+		// what follows the client's values is Olla's own addition: one Via entry naming Olla,
+		// one X-Forwarded-For entry with the client's address - not the client's values again,
+		// and not Olla's entry several times (a retried attempt starts from the client's
+		// headers, not from what the previous attempt sent)
+		if ok {
+			extra := recv[len(sent):]
+			for _, x := range extra {
+				// (for X-Forwarded-For the one added entry is what Olla takes for the client's
+				// address - the peer, or a value of the client's own forwarding headers when the
+				// peer is a trusted proxy - so only its number is judged)
+				own := fh != "Via" || strings.Contains(x, "olla")
+				if !own {
+					run.Violation("C15/forwarding-chain-corrupted/"+strings.ToLower(fh)+"/"+where, fmt.Sprintf("client %s values %q, backend received %q: %q after the client's values is neither the client's nor Olla's own entry", fh, sent, recv, x), wit)
+					break
+				}
+			}
+			if len(extra) > 1 {
+				run.Violation("C15/forwarding-own-entry-repeated/"+strings.ToLower(fh)+"/"+where, fmt.Sprintf("client %s values %q, backend received %q: Olla added %d entries", fh, sent, recv, len(extra)), wit)
+			}
+		}
 		if fh == "Via" && !strings.Contains(recv[len(recv)-1], "olla") {
 			run.Violation("C15/forwarding-own-entry-missing/via", fmt.Sprintf("last Via entry is %q, not Olla's", recv[len(recv)-1]), wit)
 		}
